@@ -155,11 +155,12 @@ def main():
     ap.add_argument("--json", default=None)
     a = ap.parse_args()
     sys.path.insert(0, os.path.dirname(os.path.abspath(__file__)))
-    try:
-        import pins_extra  # noqa: F401  (registers more collectors)
-        EXTRA_COLLECTORS.extend(pins_extra.COLLECTORS)
-    except ImportError:
-        pass
+    import glob, importlib.util
+    for f in sorted(glob.glob(os.path.join(os.path.dirname(os.path.abspath(__file__)), "pindefs", "*.py"))):
+        spec = importlib.util.spec_from_file_location("pindef_" + os.path.basename(f)[:-3], f)
+        mod = importlib.util.module_from_spec(spec)
+        spec.loader.exec_module(mod)
+        EXTRA_COLLECTORS.append(mod.collect)
     P = collect(a.repo)
     text = emit(P)
     out = os.path.abspath(a.out)
